@@ -797,10 +797,19 @@ func (db *DB) Open() (err error) {
 		return fmt.Errorf("cannot remove tmp files: %w", err)
 	}
 
-	// Set the compactor client once before starting any goroutines.
-	db.compactor.VerifyCompaction = db.VerifyCompaction
-	db.compactor.RetentionEnabled = db.RetentionEnabled
-	db.compactor.client = db.Replica.Client
+	// Configure the compactor before starting any goroutines. On a reopen
+	// (DisableDB/EnableDB) compactions or retention started through the store
+	// may still be running against this DB and read these fields, so only
+	// write the ones that actually changed.
+	if db.compactor.VerifyCompaction != db.VerifyCompaction {
+		db.compactor.VerifyCompaction = db.VerifyCompaction
+	}
+	if db.compactor.RetentionEnabled != db.RetentionEnabled {
+		db.compactor.RetentionEnabled = db.RetentionEnabled
+	}
+	if db.compactor.client != db.Replica.Client {
+		db.compactor.client = db.Replica.Client
+	}
 
 	// Start monitoring SQLite database in a separate goroutine.
 	if db.MonitorInterval > 0 {
